@@ -5,7 +5,7 @@ All functions take the Interp (for forking / facts) as first argument.
 import datetime
 import z3
 
-from .sym import (Sym, SBool, SInt, SReal, SDate, SStr, SOpaque, SList, SSet,
+from .sym import (SymKeyDict, Sym, SBool, SInt, SReal, SDate, SStr, SOpaque, SList, SSet,
                   SMap, SObj, StrS, slen, str_lt, str_contains, str_cat,
                   Unsupported, is_numeric, num_z, to_real, pyfloat_to_z3)
 
@@ -71,6 +71,8 @@ def typename(v):
 
 def truth(it, v):
     """python bool or z3 Bool for the truth value of v."""
+    if isinstance(v, z3.BoolRef):
+        return v
     if isinstance(v, SBool):
         return v.z
     if isinstance(v, SInt):
@@ -220,7 +222,7 @@ def binop(it, op, a, b):
                       and isinstance(b, (SSet, set, frozenset))):
         sa, sb = it.lift_set(a), it.lift_set(b)
         return SSet(lambda x: z3.And(zbool(sa.has(x)), z3.Not(zbool(sb.has(x)))),
-                    None, sa.elt)
+                    None, sa.elt, sa.forall)
     if op == '|' and (isinstance(a, (SSet, set, frozenset))
                       and isinstance(b, (SSet, set, frozenset))):
         sa, sb = it.lift_set(a), it.lift_set(b)
@@ -406,6 +408,8 @@ def contains(it, container, x):
         return SBool(z3.Or(*parts))
     if isinstance(container, dict):
         return contains(it, list(container.keys()), x)
+    if isinstance(container, SymKeyDict):
+        return contains(it, [k for k, _ in container.entries], x)
     if isinstance(container, SList):
         i = it.bound_var('ini')
         e = values_equal(it, container.get(i), x)
